@@ -491,8 +491,16 @@ func gmSensor(r *rng, s *sink) [][]byte {
 			}
 			vals = append(vals, v)
 		}
-		out = append(out, klv("SCAL", st.ch, st.w, n, beInts(st.w, vals...)))
-		s.count("gm.scal." + fmt.Sprint(n))
+		if r.chance(1, 25) {
+			// a scale whose structure size is not its type's width: smaller (no value fits), zero, or larger
+			sz := pick(r, []int{0, 1, st.w - 1, st.w + 1, 2 * st.w})
+			cnt := 1 + r.intn(3)
+			out = append(out, klv("SCAL", st.ch, sz, cnt, gmValueBytes(r, sz*cnt)))
+			s.count("gm.scal.oddsize")
+		} else {
+			out = append(out, klv("SCAL", st.ch, st.w, n, beInts(st.w, vals...)))
+			s.count("gm.scal." + fmt.Sprint(n))
+		}
 	}
 	nsamp := r.intn(5)
 	nvals := nsamp * sens.w
